@@ -189,6 +189,10 @@ var c08Opts = TraceOpts{MinRules: 2, MaxRules: 7, MinPool: 3, MaxPool: 6, Contro
 
 func runC08Case(c *Ctx, idx int) *CaseResult {
 	cr := &CaseResult{}
+	if idx < len(c08DirectedCases) {
+		return runC08Directed(c, idx, cr)
+	}
+	idx -= len(c08DirectedCases)
 	r := c.Rng(idx, 0)
 	prog := GenTraceProgram(r, c08Opts)
 	style := traceStyle(c.Rng(idx, 1))
@@ -257,6 +261,12 @@ func runC08Case(c *Ctx, idx int) *CaseResult {
 			continue
 		}
 		cfg := RunCfg{MaxCycle: uint64(6 + sr.Intn(20)), Shared: shared}
+		// strict mode in a third of the calls (an instance that has reported a failing condition
+		// once must report it again in a later call)
+		if sr.Intn(3) == 0 {
+			cfg.RetErr = true
+			cr.inc("calls_with_ReturnErrOnFailedRuleEvaluation")
+		}
 		if ending == "limit" {
 			cfg.MaxCycle = uint64(sr.Intn(3))
 		}
@@ -287,6 +297,9 @@ func runC08Case(c *Ctx, idx int) *CaseResult {
 		vs = append(vs, MonControl(a)...)
 		if ending != "cancel" {
 			vs = append(vs, MonProtocol(a)...)
+			if cfg.RetErr {
+				vs = append(vs, MonFaultContainment(a, nil)...)
+			}
 		}
 		if len(vs) > 0 {
 			d := caseDetail(text, pipeline, init, res, vs)
@@ -380,14 +393,14 @@ func init() {
 		ID: "C11", Level: "exploration",
 		Rule: "3-15 rules with mixed conditions (many simultaneously true, equal saliences, conditions that fail on hostile facts), removed rules, fresh and previously executed instances, both settings of ReturnErrOnFailedRuleEvaluation, each call repeated 8x (map order); oracle = reference matching set over the non-removed rules, ordering, deep comparison of the facts before/after, no action-side event; non-trivial = distinct (program, state) whose matching set has >=2 members with >=2 saliences, or contains an erroring / removed rule",
 		Assume: []string{"same domain as C01"},
-		Cases:  tierN(1000, 40000),
+		Cases:  func(t string) int { return tierN(1000, 40000)(t) + len(c08DirectedCases) },
 		Run:    runC11Case,
 	})
 	register(&Check{
 		ID: "C08", Level: "exploration",
 		Rule: "histories of 2-6 calls on ONE instance, each call in {Execute, ExecuteWithContext, FetchMatchingRules} with its own facts and its own ending {normal, Complete, action error on hostile facts, cycle limit (MaxCycle 0-2), cancellation at a chosen boundary event}; every call is judged by the per-run monitors (C01, C02, C03, C06, C10 / fetch exactness) re-armed under fresh-instance assumptions (all non-removed rules active, nothing remembered); non-trivial = distinct (history, position) calls made after an earlier call left state behind (retraction, remembered values, completion)",
 		Assume: []string{"comparison is against the reference's set of permitted behaviours, not against a literal second run (equal saliences make two correct runs differ)"},
-		Cases:  tierN(1000, 40000),
+		Cases:  func(t string) int { return tierN(1000, 40000)(t) + len(c08DirectedCases) },
 		Run:    runC08Case,
 	})
 }
